@@ -78,7 +78,7 @@ EXTRA["C14"] = {
 
 EXTRA["C15"] = {
     "text": "Bounded symbolic model checking of the real unify / unify_all (type_checker.rs) on type templates of depth 1 "
-            "(quick) / first argument depth 2 and second depth 1, unify(t,t) at depth 2 (thorough): for every feasible path returning a combined type u the real is_subtype is executed on (a,u) "
+            "(both tiers; depth 2 does not finish within an hour): for every feasible path returning a combined type u the real is_subtype is executed on (a,u) "
             "and (b,u) and z3 decides both hold; unify(t,t) returns Some(t) (structural equality, merged); unify_all "
             "over 2 (quick) / 3 elements covers every element. Replay through `garden verif unify` / `subtype`. "
             "Part B (join data-flow kernel): each join site of the real checker - check_match (inferring and checking), "
@@ -200,8 +200,8 @@ EXTRA["C03"] = {
     "text": "Bounded symbolic model checking of the infix loop of the real parse_expression (parser.rs) with "
             "token_as_binary_op, TokenStream::peek/pop, Position::merge, Expression::new and IdGenerator::next executed "
             "for real, on token streams x1 op1 x2 ... xk whose operator tokens are symbolic: all 21 operator strings "
-            "(read from the source) for chains of up to 3 (quick) / 4 operands, each operand an atom or a parenthesised atom "
-            "(shape forked), three operators and atom operands for chains up to 6. "
+            "(read from the source) for chains of up to 3 (quick) / 4 operands, each operand of a chain up to 3 an atom or a "
+            "parenthesised atom (shape forked), three operators and atom operands for chains up to 6. "
             "Decided on every path: the returned tree is the left fold ((x1 op1 x2) op2 x3)... with the operators in "
             "source order and no diagnostic, and the operator strings map to pairwise distinct kinds. Replay through "
             "`garden reftest-ast` on the generated chain.",
